@@ -22,7 +22,14 @@ say "confirmation of seeded change $ID-$N against /repo HEAD $(git -C /repo rev-
 demo_run() { # runs the demo in $W/repo, returns its exit status
   if [ -f "$SRC/demo${N}_test.go" ]; then
     pkg=$(grep -o 'directory[^a-zA-Z]*[a-zA-Z0-9_/]*' "$SRC/demo${N}_test.go" | head -1 | sed 's/directory[^a-zA-Z]*//; s#/$##')
-    [ -d "$W/repo/$pkg" ] || pkg=$(python3 -c "import json;print(json.load(open('$SRC/meta$N.json')).get('demo_pkg',''))" 2>/dev/null)
+    [ -n "$pkg" ] && [ -d "$W/repo/$pkg" ] || pkg=$(python3 -c "
+import json,re
+m=json.load(open('$SRC/meta$N.json'))
+p=m.get('demo_pkg','')
+if not p:
+    r=re.findall(r' \./([A-Za-z0-9_/]+?)/?(?:\s|\$|\x27|\")', m.get('demo_cmd','')+' ')
+    p=r[-1] if r else ''
+print(p)" 2>/dev/null)
     [ -n "$pkg" ] && [ -d "$W/repo/$pkg" ] || { echo "cannot find demo package dir ($pkg)"; return 99; }
     cp "$SRC/demo${N}_test.go" "$W/repo/$pkg/zz_seed_demo_test.go"
     cp "$SRC/demo${N}_test.go" "$DST/demo_test.go"; echo "$pkg" > "$DST/demo_pkg.txt"
